@@ -508,6 +508,9 @@ func propC07(j *Job) {
 						if pi == 0 || j.Thorough() {
 							k = 1
 						}
+						if pi == 0 && rc == 0 && j.Thorough() {
+							k = 2
+						}
 						cases = append(cases, xferCase{Name: fmt.Sprintf("A/%s/%s/pos%v/%s/recv%d", mode.Name, sh.name, pos, mix, rc), K: k, Spec: spec})
 						if rc == 0 {
 							// slow writer: the skip reaches the receiver before anything else of that stream
